@@ -14,17 +14,23 @@ RoundTenths(v, K) == LET d == NDivPow10(v.m, K-2)  h == NVal(d[1],1)
 Impact17(m) == IShift10(IMulS(IOf(1000000000 - (1000-WCIA2[m.C])*(1000-WCIA2[m.I])*(1000-WCIA2[m.A])), 1041), 6)
 F5(x) == ISub(IOf(100000), IOf(x))      \* 1 - x at scale 10^5 (x = impact x1000 * requirement x100)
 \* AdjustedImpact = min(10, 10.41*(1-(1-C*CR)*(1-I*IR)*(1-A*AR)))        at scale 10^17
-AdjImpact17(m) == LET p == IMul(IMul(F5(WCIA2[m.C]*WREQ2[m.CR]), F5(WCIA2[m.I]*WREQ2[m.IR])), F5(WCIA2[m.A]*WREQ2[m.AR]))
-                      raw == IMulS(ISub(IShift10(IOf(1),15), p), 1041)
-                  IN IMin(raw, IShift10(IOf(10),17))
+\* (x, y, z = impact weight x1000 times requirement weight x100 of C, I, A)
+AdjImpact17P(x, y, z) == LET p == IMul(IMul(F5(x), F5(y)), F5(z))
+                             raw == IMulS(ISub(IShift10(IOf(1),15), p), 1041)
+                         IN IMin(raw, IShift10(IOf(10),17))
+AdjImpact17(m) == AdjImpact17P(WCIA2[m.C]*WREQ2[m.CR], WCIA2[m.I]*WREQ2[m.IR], WCIA2[m.A]*WREQ2[m.AR])
 AdjImpactCapped(m) == LET p == IMul(IMul(F5(WCIA2[m.C]*WREQ2[m.CR]), F5(WCIA2[m.I]*WREQ2[m.IR])), F5(WCIA2[m.A]*WREQ2[m.AR]))
                       IN ICmp(IMulS(ISub(IShift10(IOf(1),15), p), 1041), IShift10(IOf(10),17)) > 0
 \* Exploitability = 20*AV*AC*Au                                           at scale 10^8
-Expl8(m) == IMulS(IMulS(IOf(20*WAV2[m.AV]), WAC2[m.AC]), WAU2[m.Au])
+\* (e = product of the three exploitability weights, x1000 x100 x1000)
+ExplProd(m) == WAV2[m.AV] * WAC2[m.AC] * WAU2[m.Au]
+Expl8E(e) == IOf(20 * e)
+Expl8(m) == Expl8E(ExplProd(m))
 \* round(((0.6*Impact)+(0.4*Exploitability)-1.5)*f(Impact)), f = 0 if Impact = 0 else 1.176
-BaseEq(m, imp17) == IF IZero(imp17) THEN <<0, FALSE>>
-                    ELSE LET x == ISub(IAdd(IMulS(imp17,6), IShift10(IMulS(Expl8(m),4), 9)), IShift10(IOf(15),17))  \* scale 10^18
-                         IN RoundTenths(IMulS(x,1176), 21)
+BaseEqE(e, imp17) == IF IZero(imp17) THEN <<0, FALSE>>
+                     ELSE LET x == ISub(IAdd(IMulS(imp17,6), IShift10(IMulS(Expl8E(e),4), 9)), IShift10(IOf(15),17))  \* scale 10^18
+                          IN RoundTenths(IMulS(x,1176), 21)
+BaseEq(m, imp17) == BaseEqE(ExplProd(m), imp17)
 Max0(x) == IF x < 0 THEN 0 ELSE x
 TempEq(b, m) == RoundDivSmall(b * WE2[m.E] * WRL2[m.RL] * WRC2[m.RC], 1000000)
 AllND2(m, ks) == \A k \in 1..Len(ks) : m[ks[k]] = "ND"
